@@ -113,7 +113,7 @@ SPECIAL_WORDS = {"pragma": "PRAGMA_KW", "dim": "DIM_KW"}
 PUNCT = {
     "!": "BANG", "$": "DOLLAR", "%": "PERCENT", "&": "AMP", "(": "L_PAREN", ")": "R_PAREN", "*": "STAR", "+": "PLUS", ",": "COMMA",
     "-": "MINUS", ".": "DOT", "/": "SLASH", ":": "COLON", ";": "SEMICOLON", "<": "L_ANGLE", "=": "EQ", ">": "R_ANGLE", "?": "QUESTION", "@": "AT",
-    "[": "L_BRACK", "]": "R_BRACK", "^": "CARET", "_": "UNDERSCORE", "{": "L_CURLY", "|": "PIPE", "}": "R_CURLY", "~": "TILDE",
+    "[": "L_BRACK", "]": "R_BRACK", "^": "CARET", "{": "L_CURLY", "|": "PIPE", "}": "R_CURLY", "~": "TILDE",
 }
 UNITS = ["ns", "us", "ms", "s", "dt", "µs", "im"]
 BIN = rx.anyof("01")
@@ -127,7 +127,8 @@ def lexeme_classes():
     An entry with two kinds is a lexeme that the front end splits in two tokens (number + unit)."""
     C = {}
     ident = lambda n: rx.seq(XIDS, *([XIDC] * (n - 1)))
-    C["identifier"] = (["IDENT"], [(1, rx.cls(lambda e: _in(e, "XID_Start"))), (2, ident(2)), (3, ident(3))])
+    # Identifier: FirstIdCharacter GeneralIdCharacter* with FirstIdCharacter = '_' | letter: the lone underscore is an identifier too
+    C["identifier"] = (["IDENT"], [(1, XIDS), (2, ident(2)), (3, ident(3))])
     C["hardware_qubit"] = (["HARDWAREIDENT"], [(2, rx.seq(rx.ch("$"), DIG)), (3, rx.seq(rx.ch("$"), DIG, DIG))])
     C["int_decimal"] = (["INT_NUMBER"], [(1, DIG), (2, rx.seq(DIG, DIG)), (3, rx.seq(DIG, rx.ch("_"), DIG))])
     C["int_binary"] = (["INT_NUMBER"], [(3, rx.seq(rx.ch("0"), rx.anyof("bB"), BIN)), (5, rx.seq(rx.ch("0"), rx.anyof("bB"), BIN, rx.ch("_"), BIN))])
@@ -136,12 +137,15 @@ def lexeme_classes():
     C["float"] = (["FLOAT_NUMBER"], [(3, rx.seq(DIG, rx.ch("."), DIG)), (2, rx.seq(DIG, rx.ch("."))), (2, rx.seq(rx.ch("."), DIG)),
                                      (3, rx.seq(DIG, rx.anyof("eE"), DIG)), (4, rx.seq(DIG, rx.anyof("eE"), rx.anyof("+-"), DIG)),
                                      (5, rx.seq(DIG, rx.ch("."), DIG, rx.anyof("eE"), DIG)), (4, rx.seq(rx.ch("."), DIG, rx.anyof("eE"), DIG)),
-                                     (5, rx.seq(DIG, rx.ch("_"), DIG, rx.ch("."), DIG)), (5, rx.seq(DIG, rx.ch("_"), DIG, rx.anyof("eE"), DIG))])
+                                     (5, rx.seq(DIG, rx.ch("_"), DIG, rx.ch("."), DIG)), (5, rx.seq(DIG, rx.ch("_"), DIG, rx.anyof("eE"), DIG)),
+                                     # digits after the point are optional also before an exponent: `1.e3`, `1.e-3`
+                                     (4, rx.seq(DIG, rx.ch("."), rx.anyof("eE"), DIG)), (5, rx.seq(DIG, rx.ch("."), rx.anyof("eE"), rx.anyof("+-"), DIG))])
     for u in UNITS:
         C[f"int_{u}"] = (["INT_NUMBER", "IDENT"], [(1 + len(u), rx.seq(DIG, rx.lit(u))), (2 + len(u), rx.seq(DIG, DIG, rx.lit(u))), (3 + len(u), rx.seq(DIG, rx.ch("_"), DIG, rx.lit(u)))])
         C[f"float_{u}"] = (["FLOAT_NUMBER", "IDENT"], [(3 + len(u), rx.seq(DIG, rx.ch("."), DIG, rx.lit(u))), (2 + len(u), rx.seq(rx.ch("."), DIG, rx.lit(u))),
                                                         (2 + len(u), rx.seq(DIG, rx.ch("."), rx.lit(u))), (4 + len(u), rx.seq(rx.ch("."), DIG, rx.anyof("eE"), DIG, rx.lit(u))),
-                                                        (3 + len(u), rx.seq(DIG, rx.anyof("eE"), DIG, rx.lit(u)))])
+                                                        (3 + len(u), rx.seq(DIG, rx.anyof("eE"), DIG, rx.lit(u))),
+                                                        (4 + len(u), rx.seq(DIG, rx.ch("."), rx.anyof("eE"), DIG, rx.lit(u)))])
     C["bit_string"] = (["BIT_STRING"], [(3, rx.seq(rx.ch('"'), BIN, rx.ch('"'))), (5, rx.seq(rx.ch('"'), BIN, rx.ch("_"), BIN, rx.ch('"'))),
                                         (4, rx.seq(rx.ch("'"), BIN, BIN, rx.ch("'")))])
     C["string"] = (["STRING"], [(3, rx.seq(rx.ch('"'), NOT01_, rx.ch('"'))), (4, rx.seq(rx.ch('"'), STRCHAR, NOT01_, rx.ch('"'))), (3, rx.seq(rx.ch("'"), NOT01_, rx.ch("'")))])
@@ -160,7 +164,7 @@ def is_xid_continue(e):
 def is_keyword_text(chars):
     """z3 Bool: the char list spells a reserved word (or the lone underscore)"""
     alts = []
-    for w in list(KEYWORDS) + list(SPECIAL_WORDS) + ["_"]:
+    for w in list(KEYWORDS) + list(SPECIAL_WORDS):
         if len(w) == len(chars):
             alts.append(z3.And([(c.e if hasattr(c, "e") else z3.BitVecVal(c, 32)) == ord(x) for c, x in zip(chars, w)]))
     return z3.Or(alts) if alts else z3.BoolVal(False)
